@@ -9,8 +9,10 @@ pub mod hashers;
 pub mod interp;
 pub mod model;
 pub mod ops;
+pub mod probes;
 pub mod runner;
 pub mod shapes;
+pub mod shared;
 pub mod steps;
 pub mod tracked;
 
